@@ -50,7 +50,7 @@ Templates(ps) ==
       os == SetToSortSeq(ones, LAMBDA x, y : x = "a")
       ms == SetToSortSeq(many, LAMBDA x, y : x = "a")
       RECURSIVE Rep(_) Rep(s) == IF s = <<>> THEN <<>> ELSE <<MkSym(s[1]), Ellipsis>> \o Rep(Tail(s))
-      RECURSIVE RepList(_) RepList(s) == IF s = <<>> THEN <<>> ELSE <<MkList(<<K, MkSym(s[1])>>), Ellipsis>> \o RepList(Tail(s))
+      RECURSIVE RepList(_) RepList(s) == IF s = <<>> THEN <<>> ELSE <<MkList(<<K, L, MkSym(s[1])>>), Ellipsis>> \o RepList(Tail(s))      \* (k lit v) ...: constants, one of them the literal identifier
       OneSyms == [i \in DOMAIN os |-> MkSym(os[i])]
       \* identifiers the pattern does not bind are constants of the template, whatever another rule calls its variables
       fs == SetToSortSeq({"a", "b"} \ AllVars(ps), LAMBDA x, y : x = "a")
